@@ -115,6 +115,9 @@ def type_universe(rng, quick):
         d1 += unary(t)
     d1 += [("map", ("leaf", k), ("leaf", "i32"), "BTreeMap") for k in KEYS]
     d1 += [("array", 64, ("leaf", "u8")), ("array", 65, ("leaf", "u8")), ("tuple", [("leaf", "u8")] * 10)]
+    # long texts: the tuple form must not depend on how large the element's text is
+    d1 += [("array", 13, ("array", 13, ("array", 13, ("leaf", "u8")))), ("array", 32, ("array", 32, ("tuple", [("leaf", "u8"), ("leaf", "u16"), ("leaf", "u32")]))),
+           ("array", 32, ("array", 32, ("leaf", "String"))), ("option", ("array", 20, ("array", 20, ("array", 3, ("leaf", "bool")))))]
     d2 = []
     base2 = [t for t in d1 if t[0] in ("option", "vec", "tuple", "map", "result", "array", "wrap")]
     for t in rng.sample(base2, min(len(base2), 40 if quick else 120)):
@@ -280,6 +283,20 @@ def run(ctx):
             elif not rr[1] and not res["q"][qi]["inline"].startswith("\x00"):
                 viol.append(dict(kind="property-violated", what="serde_json output of a library type is not a member of the type TS::inline() reports",
                                  type=C.rust_ty(types[qi]), json=text, reported=res["q"][qi]["inline"]))
+        # nothing of a different shape: a fixed-length array with its last element dropped is not a member
+        neg = []
+        for (qi, k), text in sorted(res["v"].items()):
+            t = types[qi]
+            if t[0] == "array" and 1 <= t[1] <= 64 and not text.startswith("\x00"):
+                j = json.loads(text)
+                if isinstance(j, list) and len(j) == t[1]:
+                    neg.append((qi, json.dumps(j[:-1], separators=(",", ":"), ensure_ascii=False)))
+        rn = S.membership(res, neg, "c12neg") if neg else []
+        for (qi, text), rr in zip(neg, rn):
+            if rr is not None and (rr[0] or (rr[1] and not res["q"][qi]["inline"].startswith("\x00"))):
+                viol.append(dict(kind="property-violated", what="a fixed-length array type admits an array of another length",
+                                 type=C.rust_ty(types[qi]), json_of_wrong_length=text[:200], reported_name=res["q"][qi]["name"][:200],
+                                 reported_inline=res["q"][qi]["inline"][:200], member_by_name=rr[0], member_by_inline=rr[1]))
         for i, t in enumerate(types):
             if res["q"][i]["deps"] != "":
                 viol.append(dict(kind="property-violated", what="a library type over leaves reports dependencies", type=C.rust_ty(t), deps=res["q"][i]["deps"]))
@@ -320,7 +337,7 @@ def run(ctx):
         "evaluations": len(cases) + len(fcases) + 3 * len(types) + dep_stats["types"],
         "dependencies_over_derived_types": dict(dep_stats, rule="every container (Option, Vec, arrays, Box/RefCell/Mutex, tuples, maps, Result at either side, a derived generic) around derived types at depth 1..3, the other side of every binary constructor holding a leaf: dependencies() = exactly the derived types occurring in the expression; name()/inline()/dependencies() vs Model/Gen.v"),
         "distinct_nontrivial": len(distinct),
-        "rule": "(A) %d library type expressions: every leaf of an 11-leaf set under every container (Option, Vec, [T;0], [T;2], [u8;64], [u8;65], Box/RefCell/Mutex, Range, 1-/2-/10-tuples, BTreeMap/HashMap with String/char/u8/i64 keys, Result both ways), sampled depth-2 and depth-3 compositions (Option around containers that hold Options, ...), with values built for None/Some, empty/non-empty: real name()/inline()/dependencies() vs Model/Gen.v byte for byte, Spec/Serde.v vs real serde_json text, and Coq-decided membership of the real JSON in the parsed real name() and inline(); (B) %d rows of std and feature-gated types (NonZero*, PathBuf, IpAddr/SocketAddr, HashSet/BTreeSet, RangeInclusive, Rc/Arc/Cow/Cell/RwLock/Weak/PhantomData, chrono, uuid, url, semver, bytes, indexmap, heapless, smol_str, ordered-float, bigdecimal, bson, serde_json::Number) built with all features: Coq-decided membership of real serde_json output in the reported type; non-trivial = distinct (type, JSON) pairs" % (len(types), len(FEATURE_ROWS)),
+        "rule": "(A) %d library type expressions: every leaf of an 11-leaf set under every container (Option, Vec, [T;0], [T;2], [u8;64], [u8;65], Box/RefCell/Mutex, Range, 1-/2-/10-tuples, BTreeMap/HashMap with String/char/u8/i64 keys, Result both ways), sampled depth-2 and depth-3 compositions (Option around containers that hold Options, ...), with values built for None/Some, empty/non-empty (and, for fixed-length arrays, the same JSON with the last element dropped, which must NOT be a member): real name()/inline()/dependencies() vs Model/Gen.v byte for byte, Spec/Serde.v vs real serde_json text, and Coq-decided membership of the real JSON in the parsed real name() and inline(); (B) %d rows of std and feature-gated types (NonZero*, PathBuf, IpAddr/SocketAddr, HashSet/BTreeSet, RangeInclusive, Rc/Arc/Cow/Cell/RwLock/Weak/PhantomData, chrono, uuid, url, semver, bytes, indexmap, heapless, smol_str, ordered-float, bigdecimal, bson, serde_json::Number) built with all features: Coq-decided membership of real serde_json output in the reported type; non-trivial = distinct (type, JSON) pairs" % (len(types), len(FEATURE_ROWS)),
         "samples": [dict(type=C.rust_ty(types[k]), reported=res["q"][k]["name"]) for k in (len(types) // 2, len(types) - 1)],
         "correspondence": {"types": len(types), "ser_values": nser, "text_breaks": len(mism), "ser_breaks": len(ser_mism)},
         "oracle": {"composition_values": len(cases), "feature_values": len(fcases), "violations": len(viol), "known": known},
